@@ -4,7 +4,7 @@ import pk, src
 from common import jhash, first_diff
 from pkgrun import *
 
-PROF = profile(tokens=True, no_textbox_in_link=True, math_markup=True, p_math=0.12, alt_markup=False, p_rpr=0.8, p_style=0.5, p_link=0.12, p_textbox=0.06,
+PROF = profile(tokens=True, no_textbox_in_link=True, math_markup=True, p_math=0.12, p_rpr=0.8, p_style=0.5, p_link=0.12, p_textbox=0.06,
                p_table=0.15, p_text=0.55, run_items=(0, 3), inlines=(1, 5))
 RULE = ('packages from the "formatting" profile: every recognised run property with every on/off spelling (and unrecognised ones), heading '
         'and non-heading styles, token text followed by markup characters (& < >), hyperlinks whose runs differ in formatting, text boxes '
@@ -28,6 +28,9 @@ def analyse(s):
     alts = []
     def keep(m): alts.append(m.group(0)); return '\x00%d\x00' % (len(alts) - 1)
     s2 = ALT.sub(keep, s)
+    for a_ in alts:
+        d_ = a_[len('----Image alt text---->'):-1]
+        if '>' in d_ or re.search(r'&(?!amp;|lt;|gt;)', d_): return 'unescaped markup character in an image description: ' + d_[:40], None, None
     out = []; stack = []; fmt_at = {}; pos = 0
     def text(t):
         if '<' in t or '>' in t: return 'raw angle bracket in text: ' + t[:40]
@@ -58,7 +61,8 @@ def analyse(s):
     if e: return e, None, None
     if stack: return 'tags left open at the end of the paragraph: ' + ','.join(x[1] for x in stack), None, None
     plain = ''.join(out)
-    plain = re.sub('\x00(\\d+)\x00', lambda m: alts[int(m.group(1))], plain)
+    # the description inside an alt-text stand-in is document text too: escaped under html, so unescaped here
+    plain = re.sub('\x00(\\d+)\x00', lambda m: '----Image alt text---->' + unescape(alts[int(m.group(1))][len('----Image alt text---->'):-1]) + '<', plain)
     return None, plain, fmt_at
 
 
